@@ -91,3 +91,10 @@ Definition apply_across_chunks (r mr : rname) (ng : nat) (chunks : list (list na
             chunks (chunk_cells r ng []).
 
 End ChunkedKeys.
+
+(* what core_merge encodes of core.py's dispatch (regenerated: Gen/TablesGen.gen_core_merge_sums): size / count /
+   sum / sum_squares merge with the plain sum; every other func_name with its nan-version if ScalarFuncs has one *)
+From Coq Require Import String.
+Open Scope string_scope.
+Definition core_merge_sums : list string * string * string :=
+  (["size"; "count"; "sum"; "sum_squares"], "sum", "hasattr(numba_funcs.ScalarFuncs, f'nan{func_name}')").
